@@ -129,3 +129,18 @@ Theorem C01_planar3d_all_stabilizers_commute_for_all_sizes :
                        (Planar3D.is_vertex s') (Planar3D.support Lx Ly Lz s') = true.
 Proof. exact Planar3D.planar3d_stabilizers_commute. Qed.
 Print Assumptions C01_planar3d_all_stabilizers_commute_for_all_sizes.
+
+(** Layer P, Planar3DCode, every size >= 2: the logical X line commutes with every vertex generator, the
+    logical Z sheet with every face generator, and the two share exactly one qubit (they anticommute). *)
+From PQ Require Planar3DLogicals.
+Theorem C01_planar3d_logicals_for_all_sizes :
+  forall (Lx Ly Lz : BinNums.Z) s, (2 <= Lx)%Z -> (2 <= Ly)%Z -> (2 <= Lz)%Z -> In s (Planar3D.stab_coords Lx Ly Lz) ->
+  ((Planar3D.is_vertex s = true -> Toric3D.overlap3 (Planar3D.support Lx Ly Lz s) (Planar3DLogicals.lx Lx) = false) /\
+   (Planar3D.is_vertex s = false -> Toric3D.overlap3 (Planar3D.support Lx Ly Lz s) (Planar3DLogicals.lz Ly Lz) = false)) /\
+  Toric3D.overlap3 (Planar3DLogicals.lx Lx) (Planar3DLogicals.lz Ly Lz) = true.
+Proof.
+  intros Lx Ly Lz s H1 H2 H3 Hs. split.
+  - exact (Planar3DLogicals.planar3d_logicals_commute_with_stabilizers Lx Ly Lz s H1 H2 H3 Hs).
+  - apply Planar3DLogicals.planar3d_logical_pairing; apply BinInt.Z.le_trans with (m := 2%Z); try assumption; discriminate.
+Qed.
+Print Assumptions C01_planar3d_logicals_for_all_sizes.
